@@ -645,7 +645,7 @@ func d1Lemmas(p *core.Program, r *core.Report) {
 				}
 			}
 		}
-		r.Add("D1-lemma", "Evaluate: order-dependent accumulators of the longest-run search examined", p.Pos(fn.Pos()), nAcc >= 2, fmt.Sprintf("%d loop-carried values", nAcc))
+		r.Add("D1-lemma", "Evaluate: order-dependent accumulators of the longest-run search examined", p.Pos(fn.Pos()), nAcc >= 1, fmt.Sprintf("%d loop-carried values (a plain maximum is commutative; start and end of the run are the order-dependent ones)", nAcc))
 	}
 	// newDetectionStateFromMonotonicNumbers: the candidates are visited in map order; this is only
 	// tolerable if evaluating one candidate cannot change what the next one sees.
